@@ -216,6 +216,19 @@ Definition o14_step (prev : mgr) (s : ostep) : bool :=
   | _ => match s_res s with XPanic => true | _ => bound14 (s_state s) end
   end.
 
+(* C09, manager side: a piece is released for upload only to a peer we have unchoked and only if we own it *)
+Definition o09_step (prev : mgr) (s : ostep) : bool :=
+  match s_op s, s_res s with
+  | OCmd (CRequest a i), XOk (RReq_Load j) =>
+      (j =? i) && (i <? pieces_n prev) &&
+      match pget (m_peers prev) a, nthN (m_status prev) i with
+      | Some p, Some st => negb (p_am_choked p) && is_have st
+      | _, _ => false
+      end
+  | _, XPanic => false
+  | _, _ => true
+  end.
+
 (* ---- the run -------------------------------------------------------------------------------- *)
 Fixpoint run (which : N) (prod : bool) (prev : mgr) (prev_rx : list (addr * option N)) (steps : list ostep)
              (k o : bool) : bool * bool :=
@@ -225,6 +238,7 @@ Fixpoint run (which : N) (prod : bool) (prev : mgr) (prev_rx : list (addr * opti
       let k' := k && k_step prev s in
       let o' := o && (if which =? 12 then (negb prod || o12_step prev prev_rx s)
                       else if which =? 13 then o13_step prev s
+                      else if which =? 9 then o09_step prev s
                       else o14_step prev s) in
       match s_res s with
       | XPanic => (k', o')
@@ -241,3 +255,4 @@ Definition code (which : N) (c : case) : N :=
 Definition codes12 (cs : list case) : list N := map (code 12) cs.
 Definition codes13 (cs : list case) : list N := map (code 13) cs.
 Definition codes14 (cs : list case) : list N := map (code 14) cs.
+Definition codes09m (cs : list case) : list N := map (code 9) cs.
